@@ -15,7 +15,7 @@ use std::collections::HashSet;
 use std::io::Write;
 
 fn shim_path() -> Option<String> {
-    let p = format!("{}/shim/getrandom_shim.so", VERIF_DIR);
+    let p = format!("{}/shim/getrandom_shim.so", verif_dir());
     if std::path::Path::new(&p).exists() {
         Some(p)
     } else {
@@ -24,7 +24,7 @@ fn shim_path() -> Option<String> {
 }
 
 fn scratch_dir() -> String {
-    let d = format!("{}/target/scratch", VERIF_DIR);
+    let d = format!("{}/target/scratch", verif_dir());
     let _ = std::fs::create_dir_all(&d);
     d
 }
@@ -308,7 +308,7 @@ pub fn recheck_c14(case: &Value) -> Vec<String> {
 }
 
 fn patch_evaluations(prop: &str, evals: u64) {
-    let path = format!("{}/evidence/{}.json", VERIF_DIR, prop);
+    let path = format!("{}/evidence/{}.json", verif_dir(), prop);
     if let Ok(txt) = std::fs::read_to_string(&path) {
         if let Ok(mut v) = serde_json::from_str::<Value>(&txt) {
             v["coverage"]["evaluations"] = json!(evals);
